@@ -38,12 +38,15 @@ VARIABLES input,      \* the caller's slice / map contents (mutable by the calle
 hvars == <<input, val, built, outs, hist>>
 
 Elems == 1..3
-HInit == input \in [1..2 -> Elems] /\ val = {} /\ built = FALSE /\ outs = <<>> /\ hist = <<>>
+HInit == input \in UNION { [1..n -> Elems] : n \in 0..2 } /\ val = {} /\ built = FALSE /\ outs = <<>> /\ hist = <<>>
 Log(e) == hist' = Append(hist, e)
 Construct == /\ ~built /\ built' = TRUE /\ val' = { input[i] : i \in DOMAIN input }
              /\ Log([a |-> "construct", input |-> input]) /\ UNCHANGED <<input, outs>>
-MutateInput(i, v) == /\ built /\ input' = [input EXCEPT ![i] = v]
+MutateInput(i, v) == /\ built /\ i \in DOMAIN input /\ input' = [input EXCEPT ![i] = v]
                      /\ Log([a |-> "mutate_input", i |-> i, v |-> v]) /\ UNCHANGED <<val, built, outs>>
+\* the caller adds an element to its slice / a key to its map (matters for an empty input that was not copied)
+GrowInput(v) == /\ built /\ Len(input) < 3 /\ input' = Append(input, v)
+                /\ Log([a |-> "grow_input", v |-> v]) /\ UNCHANGED <<val, built, outs>>
 TakeOutput == /\ built /\ Len(outs) < 2
               /\ outs' = Append(outs, val)          \* a copy: the members, in some order
               /\ Log([a |-> "take_output"]) /\ UNCHANGED <<input, val, built>>
@@ -52,6 +55,7 @@ MutateOutput(k, v) == /\ k \in DOMAIN outs
 Observe == /\ built /\ Log([a |-> "observe", members |-> val]) /\ UNCHANGED <<input, val, built, outs>>
 HNext == \/ Construct \/ TakeOutput \/ Observe
          \/ \E i \in 1..2, v \in Elems : MutateInput(i, v)
+         \/ \E v \in {1} : GrowInput(v)
          \/ \E k \in 1..2, v \in Elems : MutateOutput(k, v)
 \* once built, the value never changes
 Immutable == [][built => val' = val]_hvars
